@@ -585,7 +585,8 @@ pub fn mapping_long_strings(rng: &mut Rng) -> Vec<u8> {
     };
     let mut out = String::new();
     let extra = rng.below(200);
-    let shared = long(rng, 130 + extra);
+    // now and then a string above 16383 bytes (three-byte LEB128 length prefix)
+    let shared = if rng.chance(1, 6) { long(rng, 16384 + extra) } else { long(rng, 130 + extra) };
     out.push_str(&format!("{} -> a:\n", shared));
     out.push_str(&format!("    1:2:void {}.run(int):3:4 -> m\n", shared));
     out.push_str(&format!("    void {}() -> {}\n", long(rng, 128).replace('.', "_"), "n"));
